@@ -951,8 +951,10 @@ func (sc *segmentController[T, O]) load(ctx context.Context, start, end time.Tim
 }
 
 func (sc *segmentController[T, O]) remove(deadline time.Time) (hasSegment bool, err error) {
-	ss, _ := sc.segments(context.Background(), false)
-	for _, s := range ss {
+	// No reference is taken here: delete() defers the removal to the last holder by
+	// itself. Releasing a reference that was never acquired (a dormant segment is not
+	// pinned) would drop the reference of a query that acquired the segment meanwhile.
+	for _, s := range sc.copySegments() {
 		if s.Before(deadline) {
 			hasSegment = true
 			id := s.id
@@ -962,7 +964,6 @@ func (sc *segmentController[T, O]) remove(deadline time.Time) (hasSegment bool, 
 			sc.Unlock()
 			sc.l.Info().Stringer("segment", s).Msg("removed a segment")
 		}
-		s.DecRef()
 	}
 	return hasSegment, err
 }
@@ -984,15 +985,13 @@ func (sc *segmentController[T, O]) getExpiredSegmentsTimeRange() *timestamp.Time
 		IncludeStart: true,
 		IncludeEnd:   false,
 	}
-	ss, _ := sc.segments(context.Background(), false)
-	for _, s := range ss {
+	for _, s := range sc.copySegments() {
 		if s.Before(deadline) {
 			if timeRange.Start.IsZero() {
 				timeRange.Start = s.Start
 			}
 			timeRange.End = s.End
 		}
-		s.DecRef()
 	}
 	return timeRange
 }
@@ -1000,7 +999,7 @@ func (sc *segmentController[T, O]) getExpiredSegmentsTimeRange() *timestamp.Time
 func (sc *segmentController[T, O]) deleteExpiredSegments(segmentSuffixes []string) int64 {
 	deadline := sc.clock.Now().Local().Add(-sc.opts.TTL.estimatedDuration())
 	var count int64
-	ss, _ := sc.segments(context.Background(), false)
+	ss := sc.copySegments()
 	sc.l.Info().Str("segment_suffixes", fmt.Sprintf("%s", segmentSuffixes)).
 		Str("ttl", fmt.Sprintf("%d(%s)", sc.opts.TTL.Num, sc.opts.TTL.Unit)).
 		Str("deadline", deadline.String()).
@@ -1028,7 +1027,6 @@ func (sc *segmentController[T, O]) deleteExpiredSegments(segmentSuffixes []strin
 				Str("segment_time_range", s.GetTimeRange().String()).
 				Msg("segment is not expired or not in the time range, skipping deletion")
 		}
-		s.DecRef()
 	}
 	return count
 }
